@@ -125,6 +125,62 @@ func (r *c18Run) sweepCases() (text, native, ops, simple []*c18Case) {
 				Ops: []c18Op{f, s.then, {Op: "G", Path: s.look}}})
 		}
 	}
+	// --- ops: has / get / get-all / walk / remove agree for every path SHAPE (bare key, rooted,
+	// nested, index, negative index, wildcard, descent; JSONPath text rooted and relative, bag-path
+	// objects rooted and relative; function and method) x every value kind — null included — at
+	// depth 1, 2 and 3, below objects, arrays and both mixed
+	shapeVals := []*jv{jNull(), jBool(true), jBool(false), jInt(0), jInt(-1), jFlo(1.5), jStr(""), jStr("s"), jArr(), jObj(),
+		jArr(jNull()), jObj("k", jNull())}
+	type shaped struct {
+		doc  *jv
+		leaf ppath
+	}
+	for vi, v := range shapeVals {
+		var docs []shaped
+		// objects only, arrays only, object in array in object, array in object in array; depth 1..3;
+		// the leaf has a sibling before and after it
+		docs = append(docs,
+			shaped{jObj("a", jInt(7), "k", v, "z", jInt(8)), ppath{k("k")}},
+			shaped{jArr(jInt(7), v, jInt(8)), ppath{x(1)}},
+			shaped{jObj("a", jObj("b", jInt(7), "k", v), "z", jInt(8)), ppath{k("a"), k("k")}},
+			shaped{jArr(jInt(7), jArr(v, jInt(8))), ppath{x(1), x(0)}},
+			shaped{jObj("a", jArr(jInt(7), v)), ppath{k("a"), x(1)}},
+			shaped{jArr(jObj("k", v, "z", jInt(8)), jInt(7)), ppath{x(0), k("k")}},
+			shaped{jObj("a", jObj("b", jObj("k", v, "z", jInt(8)))), ppath{k("a"), k("b"), k("k")}},
+			shaped{jArr(jArr(jArr(jInt(7), v))), ppath{x(0), x(0), x(1)}},
+			shaped{jObj("a", jArr(jObj("k", v), jInt(7))), ppath{k("a"), x(0), k("k")}},
+			shaped{jArr(jObj("a", jArr(v, jInt(8)))), ppath{x(0), k("a"), x(0)}})
+		for di, sd := range docs {
+			last := sd.leaf[len(sd.leaf)-1]
+			parent := sd.leaf[:len(sd.leaf)-1]
+			var paths []ppath
+			paths = append(paths, sd.leaf)                                          // the leaf itself
+			paths = append(paths, append(append(ppath{}, parent...), star))       // its parent's children
+			if last.kind == 'k' {
+				paths = append(paths, append(append(ppath{}, parent...), k("nope"))) // a member that is not there
+				paths = append(paths, ppath{desc, last})                          // found by a descent
+			} else {
+				paths = append(paths, append(append(ppath{}, parent...), x(9)))  // an element that is not there
+				paths = append(paths, append(append(ppath{}, parent...), x(-1))) // counted from the end
+			}
+			for pi, p := range paths {
+				pw := strings.Join(p.wire(), " ")
+				// path forms: bit 1 = send, bit 2 = bag-path object instead of text, bit 8 = relative
+				for _, mode := range []int{0, 8, 2, 10} {
+					m := mode | ((vi + di + pi) & 1)
+					ops = append(ops, &c18Case{Family: "ops", Doc: w(sd.doc), Sweep: true, Cell: "shape",
+						Ops: []c18Op{{Op: "H", Path: pw, Mode: m}, {Op: "G", Path: pw, Mode: m}, {Op: "A", Path: pw, Mode: m ^ 1}, {Op: "W", Path: pw, Mode: m}}})
+					if p.definite() {
+						ops = append(ops, &c18Case{Family: "ops", Doc: w(sd.doc), Sweep: true, Cell: "shape",
+							Ops: []c18Op{{Op: "N", Path: pw, Mode: m}, {Op: "R", Path: pw, Mode: m}, {Op: "H", Path: pw, Mode: m ^ 1}, {Op: "G", Path: pw, Mode: m}}})
+					} else {
+						ops = append(ops, &c18Case{Family: "ops", Doc: w(sd.doc), Sweep: true, Cell: "shape",
+							Ops: []c18Op{{Op: "R", Path: pw, Mode: m}, {Op: "H", Path: pw, Mode: m ^ 1}, {Op: "A", Path: pw, Mode: m}}})
+					}
+				}
+			}
+		}
+	}
 	// --- ops: a wildcard immediately followed by a descent (arrays only: deterministic)
 	wd := jArr(jArr(), jObj("b", jObj("c", jInt(1))))
 	for _, op := range []string{"G", "H", "A", "W", "R"} {
